@@ -19,8 +19,8 @@ RULE = (
     "Hypothesis-generated trees of modules (depth <= 3, dotted paths, sub-directories, every declaration kind inside "
     "modules; each module only uses types visible inside it; some file names are reused in different directories, including "
     "byte-identical index modules whose imports resolve to different leaf files) written as real files to a scratch directory; the single-file "
-    "schema is the in-order inlining. Oracle (a) get_fcp(root).to_dict() — absolute path, and relative path from another "
-    "cwd — == get_fcp_from_string(inlined).to_dict() == tree built from the description; (b) one injected fault in a chosen "
+    "schema is the in-order inlining. Oracle (a) get_fcp(root).to_dict() — absolute path, relative path from another cwd, "
+    "a path with '..', a path through a symlinked directory — == get_fcp_from_string(inlined).to_dict() == tree built from the description; (b) one injected fault in a chosen "
     "module (illegal character, unterminated declaration, undeclared type, missing file) => Err (never Ok, never an "
     "exception) whose rendered diagnostic or message chain contains the module's name (missing file: the file name). "
     "Non-trivial = >= 2 modules with one nested/dotted, or a module declaring a service/device/binding, or a fault below "
@@ -37,6 +37,7 @@ FLOORS = {
     "fault_below_depth1": 0.05,
     "relative_path": 0.15,
     "same_file_name_in_different_dirs": 0.05,
+    "non_canonical_path": 0.2,
     "identical_modules_in_different_dirs": 0.02,
 }
 
@@ -51,7 +52,7 @@ def case(draw):
     if mods and draw(st.integers(0, 2)) != 0:
         idx = draw(st.integers(0, len(mods) - 1))
         fault = (draw(st.sampled_from(FAULTS)), idx, draw(st.integers(0, 5)))
-    rel = draw(st.booleans())
+    rel = draw(st.sampled_from([False, True, "dotdot", "symlink", "cwd_sub"]))
     return tree, fault, rel
 
 
@@ -96,6 +97,8 @@ def classes_of(tree: M.Schema, fault: Any, rel: bool) -> List[str]:
             cl.append("fault_below_depth1")
     if rel:
         cl.append("relative_path")
+    if rel in ("dotdot", "symlink", "cwd_sub"):
+        cl.append("non_canonical_path")
     return cl
 
 
@@ -107,7 +110,27 @@ def check(tree: M.Schema, fault: Any, rel: bool) -> Optional[str]:
     with MO.Scratch("verif-c20-") as sc:
         sc.write(files)
         root = sc.path("main.fcp")
-        if rel:
+        if rel == "dotdot":
+            # a non-canonical spelling of the same absolute path
+            os.makedirs(sc.path("build"), exist_ok=True)
+            kind, res, logger = MO.get_fcp_logged(os.path.join(sc.dir, "build", "..", "main.fcp"))
+        elif rel == "symlink":
+            link = sc.dir + "-link"
+            os.symlink(sc.dir, link)
+            try:
+                kind, res, logger = MO.get_fcp_logged(os.path.join(link, "main.fcp"))
+            finally:
+                os.unlink(link)
+        elif rel == "cwd_sub":
+            # relative path with '..' from a sub-directory of the schema directory
+            os.makedirs(sc.path("build"), exist_ok=True)
+            cwd = os.getcwd()
+            os.chdir(sc.path("build"))
+            try:
+                kind, res, logger = MO.get_fcp_logged(os.path.join("..", "main.fcp"))
+            finally:
+                os.chdir(cwd)
+        elif rel:
             cwd = os.getcwd()
             other = os.path.dirname(sc.dir)
             os.chdir(other)
